@@ -55,6 +55,8 @@ def Exc.isLibrary : Exc → Bool
 
 abbrev R := Except Exc
 
+deriving instance DecidableEq for Except
+
 namespace Datatypes
 
 def findBase (base : List BaseDt) (dt : String) : Option BaseDt := base.find? (·.name == dt)
